@@ -1732,9 +1732,12 @@ def rule_callee_spelling(ctx, rep: Report, rid="M10"):
             ok = not rn
             why = (f"`{txt}`: for {rn} this is the instantiated name (`TemplatedFunctionRot3`), not the declared function: the routine calls "
                    f"`TemplatedFunctionRot3(t)` where C++ declares `TemplatedFunction<gtsam::Rot3>(t)`")
+        elif ".name" not in txt and "to_cpp" not in txt:
+            ok, why = False, (f"the spelling ends with `{txt}`: no component names the callable itself, so the routine calls the enclosing scope "
+                              f"(`gtsam::(args)`) instead of the declared entity")
         else:
             ok, why = True, f"`{txt}` (not classified)"
-        rep.add(rid, f"callee spelling:{kname}", ok, why, f"{ci.mod.rel}:{last.lineno}", nontrivial=not ok or txt.endswith("to_cpp()"))
+        rep.add(rid, f"callee spelling:{kname}" + ("" if ok or ".name" in txt else ":names the callable"), ok, why, f"{ci.mod.rel}:{last.lineno}", nontrivial=not ok or txt.endswith("to_cpp()"))
     if n < 3:
         raise AnalysisError(f"{rep.prop}/{rid}: only {n} kinds of callable classified")
 
@@ -1912,3 +1915,32 @@ def rule_call_arguments_per_parameter(ctx, rep: Report, rid="M4"):
             n_star >= 1 and not bad_star,
             f"{n_star} path(s) emit `*`; on {len(bad_star)} of them the facts do not establish that both markers are empty and that the object predicate holds: "
             f"{bad_star[:1]}", loc)
+
+
+def rule_copy_exactly_for_values(ctx, rep: Report, rid="H11"):
+    """A returned object is copied into a new shared pointer (`std::make_shared<T>(...)`) exactly when the declared
+    return type carries neither the shared (`*`) nor the raw (`@`) marker; a returned pointer of either kind is handed
+    through.  On every path that writes `make_shared` the guards establish that *both* markers of the same type are
+    empty, and on every sibling path that hands the object through, one of them is set.  (Testing `is_ref` or the
+    shared marker twice makes a raw-pointer return a copy of the pointer value, or a by-value return an adopted
+    address.)"""
+    from .rules_xml import _split_facts
+    ci, prog = mw(ctx)
+    n = 0
+    for mname, fn in sorted(ci.methods.items()):
+        for c in walk_no_nested(fn):
+            if not (isinstance(c, ast.Constant) and isinstance(c.value, str) and "make_shared<" in c.value):
+                continue
+            facts = []
+            for t, pol in guards_of(c, fn, include_exits=False):
+                facts += _split_facts(ast.parse(t, mode="eval").body, pol)
+            empty, contradictory = _empty_markers(facts)
+            subjects = {e[: -len(".is_shared_ptr")] for e in empty if e.endswith(".is_shared_ptr")} & \
+                {e[: -len(".is_ptr")] for e in empty if e.endswith(".is_ptr")}
+            n += 1
+            rep.add(rid, f"copy:{mname}:#{sum(1 for o in rep.obs if o.rule == rid and o.construct.startswith('copy:' + mname + ':')) + 1}:"
+                         f"make_shared only where the type has neither pointer marker", bool(subjects) and not contradictory,
+                    f"markers established empty on the path: {sorted(empty)}: a return type with `*` or `@` must be handed through, a by-value one copied; "
+                    f"this path copies without having excluded both", f"{ci.mod.rel}:{c.lineno}")
+    if n < 2:
+        raise AnalysisError(f"{rep.prop}/{rid}: only {n} make_shared sites found in the MATLAB generator")
